@@ -162,6 +162,14 @@ func init() {
 		"vpAssume":           vpAssume,
 		"vpAssert":           vpAssert,
 		"vpCheck":            vpCheck,
+		"vpKnownDeadlock": func(fr *frame, args []value) (value, bool) {
+			// a deadlock later on this path is the named known finding when cond holds
+			r := fr.i.run
+			if r.concBool(args[1], "known-deadlock") {
+				r.deadlockExcuse = argName(args[0])
+			}
+			return nil, true
+		},
 		"vpKnown":            vpKnown,
 		"vpClearKnown": func(fr *frame, args []value) (value, bool) {
 			fr.i.run.excuses = nil
